@@ -722,7 +722,7 @@ void fill_xorshift(uint8_t *p, size_t n, uint64_t seed)
 		p[i] = (uint8_t)(s >> ((i & 7) * 8));
 	}
 }
-const char *pat_name[] = { "zero", "ff", "one", "p2", "p3", "p5", "p258", "p259", "ramp", "xs", "text" };
+const char *pat_name[] = { "zero", "ff", "one", "p2", "p3", "p5", "p258", "p259", "ramp", "xs", "text", "log" };
 void fill_pattern(uint8_t *p, size_t n, int cls, uint64_t seed)
 {
 	static const char text[] = "the quick brown fox jumps over the lazy dog; the quick brown fox, the lazy dog and the quick brown "
@@ -746,6 +746,31 @@ void fill_pattern(uint8_t *p, size_t n, int cls, uint64_t seed)
 	}
 	if (cls == PAT_XS)
 		fill_xorshift(p, n, seed);
+	if (cls == PAT_LOG) {
+		static const char *voc[] = { "error", "warning", "info", "connection", "timeout", "request", "from", "to", "user", "session", "GET", "POST", "/index.html", "/api/v1/items",
+					     "200", "404", "500", "bytes", "ms", "retry", "failed", "ok", "disk", "cache", "miss", "hit", "thread", "worker", "queue", "flush", "the", "of", "a", "at", "in" };
+		uint64_t s = seed * 0x9e3779b97f4a7c15ull + 0x6c6f67, line = 1000 + seed % 777;
+		size_t pos = 0;
+		if (!s)
+			s = 1;
+		while (pos < n) {
+			char tmp[64];
+			uint64_t r = xs_next(&s);
+			int l;
+			if (r % 11 == 0)
+				l = snprintf(tmp, sizeof tmp, "\n%llu.%03u ", (unsigned long long)line++, (unsigned)(r >> 20) % 1000);
+			else if (r % 8 == 0) {
+				l = 1 + (int)((r >> 8) % 6);
+				for (int j = 0; j < l; j++)
+					tmp[j] = (char)('a' + (r >> (12 + 5 * j)) % 26);
+			} else if (r % 13 == 0)
+				l = snprintf(tmp, sizeof tmp, "%u.%u.%u.%u ", (unsigned)(r >> 8) % 256, (unsigned)(r >> 16) % 4, (unsigned)(r >> 24) % 256, (unsigned)(r >> 32) % 256);
+			else
+				l = snprintf(tmp, sizeof tmp, "%s%c", voc[(r >> 8) % (sizeof voc / sizeof voc[0])], (r >> 40) % 9 ? ' ' : '=');
+			for (int j = 0; j < l && pos < n; j++)
+				p[pos++] = (uint8_t)tmp[j];
+		}
+	}
 }
 uint64_t tiny_count(int nsig, int maxlen)
 {
